@@ -42,6 +42,11 @@ EXC_PARENTS = {
 }
 
 
+# value kinds whose operator semantics are modelled: a TypeError is only reported between these
+KNOWN_KINDS = (IntV, StrV, TupleV, NoneV, DTV, RDV, DateV, RefV, EnumV)
+EXT_CONSTS = {"datetime.MINYEAR": 1, "datetime.MAXYEAR": 9999}
+
+
 class Raised(Val):
     kind = "raise"
 
@@ -109,7 +114,12 @@ class Interp:
         return Raised(exc, self.issue(kind, exc, node, detail))
 
     def undecided(self, st, node, why):
-        st.undecided.append((self.where(node), self.construct("idiom", node), why))
+        ent = (self.where(node), self.construct("idiom", node), why)
+        st.undecided.append(ent)
+        log = getattr(self, "undecided_log", None)
+        if log is None:
+            log = self.undecided_log = {}
+        log.setdefault(ent[1], ent)
         return TopV(why)
 
     def tick(self):
@@ -142,6 +152,9 @@ class Interp:
             return FuncV(v.mod, v.node)
         if isinstance(v, e1.Opaque):
             if v.kind == "ext":
+                if "{}.{}".format(*v.info) in EXT_CONSTS:
+                    c = EXT_CONSTS["{}.{}".format(*v.info)]
+                    return IntV(c, c)
                 return ExtV(v.info[1])
             if v.kind == "extmod":
                 return ExtV("module:" + v.info)
@@ -158,6 +171,12 @@ class Interp:
                 nm = (fl.name if isinstance(fl, ExtV) else "?")
                 if v.info[1]:
                     nm = nm + "." + v.info[1]
+                if nm in ("timedelta", "relativedelta") and not v.info[2] and hasattr(self, "_mk_rd"):
+                    kw = {k: self.lift(x) for k, x in v.info[3].items()}
+                    if all(isinstance(x, IntV) for x in kw.values()):
+                        r = self._mk_rd(None, [], kw, v.info[4], nm)
+                        if isinstance(r, RDV):
+                            return r
                 return ExtV("result:" + nm)
             return TopV("opaque " + v.kind)
         if isinstance(v, e1.Unknown):
@@ -394,7 +413,39 @@ class Interp:
         return out
 
     def ev_JoinedStr(self, n, st):
-        return [(st, StrV(None, sym=("fstring",)))]
+        """f-string: a constant when every part folds to a constant without a format spec"""
+        parts = []
+        for v in n.values:
+            if isinstance(v, ast.Constant) and isinstance(v.value, str):
+                parts.append(v)
+            elif isinstance(v, ast.FormattedValue) and v.format_spec is None and v.conversion in (-1, 115):
+                parts.append(v.value)
+            else:
+                parts = None
+                break
+        if parts is None:
+            # the embedded expressions are still evaluated (they may raise)
+            exprs = [v.value for v in n.values if isinstance(v, ast.FormattedValue)]
+            out = []
+            for s, items in self._ev_seq(exprs, st, lambda items: items):
+                out.append((s, items if isinstance(items, Raised) else StrV(None, sym=("fstring",))))
+            return out
+        out = []
+        for s, items in self._ev_seq(parts, st, lambda items: items):
+            if isinstance(items, Raised):
+                out.append((s, items))
+                continue
+            txt = ""
+            for it in items:
+                if isinstance(it, StrV) and it.is_const():
+                    txt += it.const()
+                elif isinstance(it, IntV) and it.is_const() and not isinstance(it, BoolV):
+                    txt += str(it.lo)
+                else:
+                    txt = None
+                    break
+            out.append((s, StrV({txt}) if txt is not None else StrV(None, sym=("fstring",))))
+        return out
 
     def ev_IfExp(self, n, st):
         out = []
@@ -607,6 +658,8 @@ class Interp:
         return out
 
     def subscript(self, st, base, key, node):
+        if isinstance(base, GroupDictV):
+            return self._match_call(st, base.match, "group", [key], node, knode=node.slice)
         if isinstance(base, TupleV):
             if isinstance(key, IntV) and key.is_const():
                 i = key.lo
@@ -823,6 +876,15 @@ class Interp:
                              deltas=a.deltas + (b,)))]
         if isinstance(a, TupleV) and isinstance(b, TupleV) and opn == "Add":
             return [(st, TupleV(a.items + b.items, a.is_list))]
+        if opn == "Mult" and ((isinstance(a, RDV) and isinstance(b, IntV)) or
+                              (isinstance(a, IntV) and isinstance(b, RDV))):
+            rd, k = (a, b) if isinstance(a, RDV) else (b, a)
+            if not rd.abs and not getattr(rd, "is_diff", False):
+                rel = {}
+                for f, v in rd.rel.items():
+                    rel[f] = self.int_arith(st, "Mult", k, v, node)
+                if not any(isinstance(v, Raised) for v in rel.values()):
+                    return [(st, RDV({}, rel))]
         if isinstance(a, RDV) and isinstance(b, RDV) and opn == "Add":
             rel = dict(a.rel)
             for k, v in b.rel.items():
@@ -839,6 +901,8 @@ class Interp:
             return [(st, TopV("binop on top"))]
         if isinstance(a, StrV) and isinstance(b, IntV) and opn == "Mult":
             return [(st, StrV(None, sym=("rep", a.sym)))]
+        if not (isinstance(a, KNOWN_KINDS) and isinstance(b, KNOWN_KINDS)):
+            return [(st, self.undecided(st, node, "operator {} on {} and {}".format(opn, a.kind, b.kind)))]
         return [(st, self.raised("type-mismatch", "TypeError", node,
                                  "unsupported operand kinds {} {} {}".format(a.kind, opn, b.kind)))]
 
@@ -1080,6 +1144,15 @@ class Interp:
             elif isinstance(a, BoolV) and isinstance(b, BoolV) and a.value is not None \
                     and b.value is not None:
                 same = a.value == b.value
+            elif isinstance(a, ExtV) and isinstance(b, ExtV) and a.bound is None and b.bound is None \
+                    and not a.name.startswith("result:") and not b.name.startswith("result:"):
+                same = a.name == b.name
+            elif isinstance(a, ClassV) and isinstance(b, ClassV):
+                same = (a.mod.name, a.name) == (b.mod.name, b.name)
+            elif isinstance(a, (ClassV, ExtV)) and isinstance(b, (ClassV, ExtV)) \
+                    and not getattr(a, "bound", None) and not getattr(b, "bound", None) \
+                    and not any(isinstance(x, ExtV) and x.name.startswith("result:") for x in (a, b)):
+                same = False
             if same is None:
                 return self._unknown_bool(st, ("cmp", opn, a.sym, b.sym))
             return [(st, same if opn == "Is" else not same)]
@@ -1116,6 +1189,9 @@ class Interp:
             mname = {"Lt": "__lt__", "Gt": "__gt__", "LtE": "__le__", "GtE": "__ge__"}[opn]
             if self.find_member(oa.cls, mname):
                 return self._unknown_bool(st, ("cmp", opn, a.sym, b.sym))
+        if not (isinstance(a, KNOWN_KINDS) and isinstance(b, KNOWN_KINDS)):
+            self.undecided(st, node, "ordering between {} and {}".format(a.kind, b.kind))
+            return self._unknown_bool(st, ("cmp", opn, getattr(a, "sym", None), getattr(b, "sym", None)))
         return [(st, self.raised("type-mismatch", "TypeError", node,
                                  "ordering between {} and {}".format(a.kind, b.kind)))]
 
@@ -1363,6 +1439,21 @@ class Interp:
             if isinstance(a, IntV) and a.is_const() and all(
                     isinstance(x, IntV) and x.is_const() for x in b.items):
                 return [(st, a.lo in {x.lo for x in b.items})]
+            if len(b.items) <= 8:
+                # a == b[0] or a == b[1] or ... , left to right
+                out = []
+                pending = [st]
+                for x in b.items:
+                    nxt = []
+                    for s in pending:
+                        for s2, t in self.equals(s, a, anode, x, None, node):
+                            if isinstance(t, Raised) or t:
+                                out.append((s2, t))
+                            else:
+                                nxt.append(s2)
+                    pending = nxt
+                out.extend((s, False) for s in pending)
+                return out
             return self._unknown_bool(st, ("in", getattr(a, "sym", None), b.sym))
         if isinstance(b, DictV):
             return self._unknown_bool(st, ("in", getattr(a, "sym", None), b.sym))
